@@ -1,6 +1,8 @@
 package node
 
 import (
+	"reflect"
+
 	"github.com/paulsonkoly/calc/types/bytecode"
 	"github.com/paulsonkoly/calc/types/compresult"
 	"github.com/paulsonkoly/calc/types/dbginfo"
@@ -311,7 +313,8 @@ func (b BinOp) byteCode(srcsel int, fl flags.Pass, cr compResult) bytecode.Type 
 		_, nonComparable = b.Right.(List)
 	}
 
-	if tempified && !nonComparable && b.Left == b.Right {
+	// DeepEqual: == panics on operands that contain an array literal deeper in the tree
+	if tempified && !nonComparable && reflect.DeepEqual(b.Left, b.Right) {
 		// some common sub-expression elimination
 		instr := bytecode.New(bytecode.PUSHTMP)
 		*cr.CS = append(*cr.CS, instr)
